@@ -153,6 +153,9 @@ func genLine(t *rapid.T) []byte {
 // GenContent builds one input: lines + terminators, optionally one very long
 // line (longer than the 128 KiB read buffer).
 func GenContent(t *rapid.T, maxLines int, allowLong bool) []byte {
+	if allowLong && rapid.IntRange(0, 13).Draw(t, "aligned") == 0 {
+		return genAligned(t)
+	}
 	n := rapid.IntRange(0, maxLines).Draw(t, "nlines")
 	var sb bytes.Buffer
 	longAt := -1
@@ -304,4 +307,53 @@ func GenReaderCase(t *rapid.T, maxLines int, stalls bool) Case {
 	c.MatchDelay = genDelays(t, "md")
 	c.ConsumeDelay = genDelays(t, "cd")
 	return c
+}
+
+// ReadBuf is batchers.ReadAheadBufferSize (the production read buffer).
+const ReadBuf = 128 * 1024
+
+// genAligned builds inputs whose line ends fall on (or right next to) the
+// boundaries of the 128 KiB read buffer: either fixed-length records whose
+// length divides the buffer size, or a few ordinary lines followed by one long
+// line padded so that its newline is the last byte of the buffer (+-1),
+// followed by more lines.
+func genAligned(t *rapid.T) []byte {
+	var sb bytes.Buffer
+	if rapid.Bool().Draw(t, "records") {
+		l := rapid.SampledFrom([]int{32, 64, 128, 256, 1024}).Draw(t, "reclen")
+		total := rapid.SampledFrom([]int{ReadBuf, ReadBuf + ReadBuf/2, 2 * ReadBuf, 2*ReadBuf + 3*l}).Draw(t, "total")
+		shift := rapid.SampledFrom([]int{0, 0, 0, 1}).Draw(t, "shift") // 1: misaligned control
+		for i := 0; i < shift; i++ {
+			sb.WriteByte('s')
+		}
+		for n := 0; sb.Len()+l <= total; n++ {
+			head := fmt.Sprintf("%s /r%d %d k=v%d ", []string{"GET", "POST", "err", "w1 w2"}[n%4], n, 200+n%7, n%5)
+			sb.WriteString(head)
+			for j := len(head); j < l-1; j++ {
+				sb.WriteByte("abcxyz 12"[(n+j)%9])
+			}
+			sb.WriteByte('\n')
+		}
+		return sb.Bytes()
+	}
+	pre := rapid.IntRange(0, 5).Draw(t, "prelines")
+	for i := 0; i < pre; i++ {
+		sb.Write(genLine(t))
+		sb.WriteByte('\n')
+	}
+	k := rapid.IntRange(1, 2).Draw(t, "k")
+	delta := rapid.SampledFrom([]int{-1, 0, 0, 0, 1}).Draw(t, "delta")
+	target := k*ReadBuf - 1 + delta // offset of the newline that ends the long line
+	tail := " GET /long 200"
+	for sb.Len() < target-len(tail) {
+		sb.WriteByte('y')
+	}
+	sb.WriteString(tail)
+	sb.WriteByte('\n')
+	post := rapid.IntRange(1, 12).Draw(t, "postlines")
+	for i := 0; i < post; i++ {
+		sb.Write(genLine(t))
+		sb.WriteByte('\n')
+	}
+	return sb.Bytes()
 }
